@@ -16,6 +16,11 @@ Round 2: the codec is a set of pure functions in the model but a set of mutable 
 part of the first result (`hostile_obj`); most serialise cases re-use an object that carried and serialised the
 values of another case before (`prev`); `ops` mixes both in random sequences.  All of this runs in forked children
 (`Isolated`) so that a shrunk / replayed case never depends on what an earlier case left behind.
+
+Round 3: a lenient checksum verification fails on STRUCTURED points of the error space (the checksum in the other byte
+order, another algorithm's value, zero ...) that random bursts never hit.  `burst` and `parse` now also apply the
+transformations `XF` / `CK_ALT` to the checksum field, to the windows overlapping it and to every other header /
+chunk field (with and without recomputing the checksum); the model is asked about the same bytes.
 """
 from __future__ import annotations
 
@@ -39,6 +44,8 @@ MANIFEST = {
             "accepted packet of ANY length that lies entirely outside or entirely inside the checksum field makes "
             "parse_packet raise ValueError. Bursts straddling the checksum field can pass (inherent in RFC 4960): "
             "C08_full_false is proved from a 16-byte witness and replayed on the real parser every run. "
+            "checksum_field_exact / built_checksum_exact: the checksum bytes of an accepted / built packet are the only "
+            "4-byte value accepted in their place (not the other byte order, not another algorithm's value). "
             "Props/C08Ops: over a pool of live objects with an arbitrary history (objects re-used, overwritten, results "
             "modified by their owner), serialising observes the current field values only, parsing observes the bytes "
             "only, and the round trip holds for re-used objects (ops_reuse_roundtrip); compared step by step with the "
@@ -69,7 +76,10 @@ RULE = ("chunks are built with the repo's own classes from boundary-biased field
         "user data 0..1200 bytes and parameter values of every length residue mod 4, lists up to the 16-bit length limit; "
         "malformed packets are derived from valid ones (every class x every body length 0..24, truncated / inflated "
         "length fields, zero / short parameter lengths, unknown types, garbage) with the CRC recomputed; bursts: every "
-        "length 1..32, positions biased to the checksum-field boundaries, random interior pattern; "
+        "length 1..32, positions biased to the checksum-field boundaries, random interior pattern, plus structured "
+        "alterations of the checksum field and of every header / chunk field of packets of every class (byte / bit order, "
+        "half swap, rotations, complement, zero, ones, +-1, 17 alternative check values in both byte orders), also with "
+        "the checksum recomputed (must parse to the transformed value); "
         "purity: every parse is done twice with the first result modified in between (ints, bytes, lists in place), two "
         "thirds of the serialise cases re-use an object that was serialised with other values, op sequences of 4..30 "
         "steps over 4 slots mix both (value sweeps on one object, interleaved objects of one class, sibling packets with "
@@ -1074,6 +1084,178 @@ class Reconfig(Isolated):
         return []
 
 
+# ---- structured transformations of a wire field (round 3) ------------------------------------------------
+# What a "lenient" parser might normalise or accept as an alternative: another byte / bit order, the complement,
+# a neighbouring value, a constant, another checksum algorithm or another input to the right one.  Replacing a field of
+# w <= 4 bytes by anything else alters a single burst of <= 8*w <= 32 bits confined to that field.
+
+def _bitrev8(b: int) -> int:
+    return int("{:08b}".format(b)[::-1], 2)
+
+
+def _addn(f: bytes, k: int, order: str) -> bytes:
+    return ((int.from_bytes(f, order) + k) % (1 << (8 * len(f)))).to_bytes(len(f), order)
+
+
+XF = {
+    "byterev": lambda f: f[::-1],
+    "halfswap": lambda f: f[len(f) // 2:] + f[:len(f) // 2],
+    "rot8": lambda f: f[1:] + f[:1],
+    "rot24": lambda f: f[-1:] + f[:-1],
+    "complement": lambda f: bytes(b ^ 0xFF for b in f),
+    "complement-byterev": lambda f: bytes(b ^ 0xFF for b in f[::-1]),
+    "bitrev-bytes": lambda f: bytes(_bitrev8(b) for b in f),
+    "bitrev-word": lambda f: bytes(_bitrev8(b) for b in f[::-1]),
+    "zero": lambda f: bytes(len(f)),
+    "ones": lambda f: b"\xff" * len(f),
+    "be+1": lambda f: _addn(f, 1, "big"),
+    "be-1": lambda f: _addn(f, -1, "big"),
+    "le+1": lambda f: _addn(f, 1, "little"),
+    "le-1": lambda f: _addn(f, -1, "little"),
+    "msb": lambda f: bytes([f[0] ^ 0x80]) + f[1:],
+    "low-half-zero": lambda f: f[:len(f) // 2] + bytes(len(f) - len(f) // 2),
+    "high-half-zero": lambda f: bytes(len(f) // 2) + f[len(f) // 2:],
+}
+XF_NAMES = sorted(XF)
+
+
+def crc_generic(data: bytes, poly: int, init: int, xorout: int) -> int:
+    """Reflected 32-bit CRC, bit by bit (poly written MSB-first)."""
+    rp = int("{:032b}".format(poly)[::-1], 2)
+    c = init
+    for b in data:
+        c ^= b
+        for _ in range(8):
+            c = (c >> 1) ^ rp if c & 1 else c >> 1
+    return c ^ xorout
+
+
+def affine_fixpoint(f):
+    """V with f(V) == V for a map f on 32-bit words that is affine over GF(2) (any CRC of a packet as a function of
+    4 of its bytes); None if there is none."""
+    f0 = f(0)
+    rows = []                       # equation per column j: (L(e_j) ^ e_j) x_j summed = f0
+    cols = [(f(1 << j) ^ f0) ^ (1 << j) for j in range(32)]
+    # solve sum_j x_j * cols[j] = f0 by elimination on the columns
+    basis = {}                      # pivot bit -> (vector, combination of columns)
+    for j, v in enumerate(cols):
+        combo = 1 << j
+        while v:
+            h = v.bit_length() - 1
+            if h in basis:
+                bv, bc = basis[h]
+                v ^= bv
+                combo ^= bc
+            else:
+                basis[h] = (v, combo)
+                break
+    t, x = f0, 0
+    while t:
+        h = t.bit_length() - 1
+        if h not in basis:
+            return None
+        bv, bc = basis[h]
+        t ^= bv
+        x ^= bc
+    return x if f(x) == x else None
+
+
+def _fixpoint(pkt: bytes, crc, order: str):
+    fmt = "<L" if order == "le" else "!L"
+    return affine_fixpoint(lambda v: crc(pkt[:8] + struct.pack(fmt, v) + pkt[12:]) & 0xFFFFFFFF)
+
+
+def _zlib():
+    import zlib
+    return zlib
+
+
+_Z = lambda pkt: pkt[:8] + b"\0\0\0\0" + pkt[12:]
+# name -> value a lenient verification might accept instead of CRC-32C(packet with the field zeroed); `o` = byte order
+# the value is going to be packed in (only the self-consistent values depend on it)
+CK_ALT = {
+    "crc32c": lambda p, o: crc_ref(_Z(p)),                 # ":le" = the correct bytes (no-op), ":be" = network order
+    "crc32c-as-received": lambda p, o: crc_ref(p),         # computed over the good packet without zeroing the field
+    "crc32c-fixpoint": lambda p, o: _fixpoint(p, crc_ref, o),   # V = CRC-32C(packet carrying V): passes a check that
+    "crc32-ieee-fixpoint": lambda p, o: _fixpoint(p, _zlib().crc32, o),  # does not zero the field first
+    "crc32c-field-ones": lambda p, o: crc_ref(p[:8] + b"\xff" * 4 + p[12:]),
+    "crc32c-skip-field": lambda p, o: crc_ref(p[:8] + p[12:]),
+    "crc32c-chunks-only": lambda p, o: crc_ref(p[12:]),
+    "crc32c-header-only": lambda p, o: crc_ref(p[:8]),
+    "crc32c-unpadded": lambda p, o: crc_ref(_Z(p).rstrip(b"\0")),
+    "crc32c+1": lambda p, o: (crc_ref(_Z(p)) + 1) & 0xFFFFFFFF,
+    "crc32c-1": lambda p, o: (crc_ref(_Z(p)) - 1) & 0xFFFFFFFF,
+    "crc32-ieee": lambda p, o: _zlib().crc32(_Z(p)) & 0xFFFFFFFF,          # the "other" CRC-32
+    "crc32-ieee-as-received": lambda p, o: _zlib().crc32(p) & 0xFFFFFFFF,
+    "adler32": lambda p, o: _zlib().adler32(_Z(p)) & 0xFFFFFFFF,           # RFC 2960 before RFC 3309
+    "adler32-as-received": lambda p, o: _zlib().adler32(p) & 0xFFFFFFFF,
+    "sum32": lambda p, o: sum(struct.unpack_from("!L", _Z(p) + b"\0\0\0", i)[0] for i in range(0, len(p), 4)) & 0xFFFFFFFF,
+    # bit-by-bit variants: small packets only
+    "crc32c-init0": lambda p, o: crc_generic(_Z(p), 0x1EDC6F41, 0, 0xFFFFFFFF) if len(p) <= 64 else None,
+    "crc32c-init0-noxor": lambda p, o: crc_generic(_Z(p), 0x1EDC6F41, 0, 0) if len(p) <= 64 else None,
+    "crc32k": lambda p, o: crc_generic(_Z(p), 0x741B8CD7, 0xFFFFFFFF, 0xFFFFFFFF) if len(p) <= 64 else None,
+}
+CK_ALT_NAMES = sorted(CK_ALT)
+CK_XFS = XF_NAMES + [f"alt:{n}:{o}" for n in CK_ALT_NAMES for o in ("le", "be")]
+
+
+def xf_apply(pkt: bytes, off: int, w: int, xf: str) -> bytes:
+    """pkt with the w-byte field at `off` replaced by the transformation `xf` of it (pkt itself if it does not fit)."""
+    if off < 0 or off + w > len(pkt) or w < 1:
+        return pkt
+    f = pkt[off:off + w]
+    if xf.startswith("alt:"):
+        _, name, order = xf.split(":")
+        v = CK_ALT[name](pkt, order) if name in CK_ALT and (off, w) == (8, 4) and len(pkt) >= 12 else None
+        if v is None:
+            return pkt
+        new = struct.pack("<L" if order == "le" else "!L", v)
+    else:
+        new = XF[xf](f)
+    return pkt[:off] + new + pkt[off + w:]
+
+
+def burst_of(good: bytes, bad: bytes):
+    """(p, mask) of the XOR difference in CRC-order bit numbering (see apply_burst), None if equal."""
+    x = int.from_bytes(bytes(a ^ b for a, b in zip(good, bad)), "little")
+    if x == 0:
+        return None
+    p = (x & -x).bit_length() - 1
+    return p, x >> p
+
+
+def xf_fields(rng, pkt: bytes, n_extra: int):
+    """(off, w) of the header fields, the first chunk's header and fixed part, the last word and a few random aligned
+    fields of the chunk area."""
+    n = len(pkt)
+    fs = [(0, 2), (2, 2), (4, 4), (4, 2), (6, 2), (12, 2), (14, 2), (12, 4)]
+    fs += [(o, 4) for o in (16, 20, 24, 28, n - 4) if 16 <= o <= n - 4]
+    fs += [(o, 2) for o in (16, 18, 20, 22, 24, 26, n - 2) if 16 <= o <= n - 2]
+    for _ in range(n_extra):
+        if n > 20:
+            w = rng.choice([2, 4])
+            fs.append((16 + w * rng.randrange((n - 16) // w), w))
+    return sorted(set(fs))
+
+
+# windows of 2 / 4 bytes that overlap the checksum field without being it: a transformation there alters bits inside
+# AND outside bits 64..95 (the oracle is silent when one is accepted -- C08-crc-straddle -- the model is not)
+CK_STRADDLE_WINDOWS = [(5, 4), (6, 4), (7, 4), (9, 4), (10, 4), (11, 4), (7, 2), (11, 2)]
+CK_SUBFIELDS = [(8, 2), (10, 2), (9, 2), (8, 1), (11, 1)]
+
+
+def ref_walk(data: bytes):
+    """[(type, flags, body)] by the TLV walk of RFC 4960 §3.2 over data[12:]; None if a chunk length is invalid."""
+    out, pos, n = [], 12, len(data)
+    while pos + 4 <= n:
+        ty, fl, ln = struct.unpack_from("!BBH", data, pos)
+        if ln < 4 or pos + ln > n:
+            return None
+        out.append((ty, fl, data[pos + 4:pos + ln]))
+        pos += ln + (-ln) % 4
+    return out
+
+
 def chunk_bytes_raw(ty, flags, body, length=None):
     l = len(body) + 4 if length is None else length
     return struct.pack("!BBH", ty, flags, l & 0xFFFF) + body + bytes((-len(body)) % 4)
@@ -1160,6 +1342,45 @@ class Parse(Isolated):
             out.append({"d": hx(fix_crc(bytes(b)) if good else bytes(b))})
         for L in range(0, 20):
             out.append({"d": hx(rbytes(rng, L))})
+        # round 3: structured transformations (byte / bit order, complement, +-1, constants ...) of the header fields, the
+        # chunk header and value / length fields of a valid packet of every class, CHECKSUM RECOMPUTED: the result is
+        # another well-formed packet (or one with an inconsistent length), and the parser must report the transformed
+        # value as it is on the wire -- `expect` (header fields only) is computed from the spec, not from repo code
+        r3 = rng
+        for rep in range(reps if tier == "quick" else 4):
+            for name in ALL:
+                while True:
+                    spec = gen_spec(r3, name)
+                    if spec_in_range(spec):
+                        break
+                sp, dp, tag = gen_header(r3)
+                pkt = ref_packet(sp, dp, tag, [spec])
+                fields = xf_fields(r3, pkt, 3)
+                picks = [(f, x) for f in fields for x in XF_NAMES]
+                keep = [q for q in picks if q[0] in ((4, 4), (14, 2))] + r3.sample(picks, min(len(picks), 40))
+                for (off, w), xf in keep:
+                    bad = fix_crc(xf_apply(pkt, off, w, xf))
+                    if bad == pkt:
+                        continue
+                    case = {"d": hx(bad), "xf": f"{off}+{w}:{xf}"}
+                    if off + w <= 8:
+                        h = struct.unpack("!HHL", bad[:8])
+                        case["expect"] = f"ok {h[0]} {h[1]} {h[2]} {spec_str(spec)}"
+                    out.append(case)
+        # ... and of the checksum field itself, checksum NOT recomputed, on bundles of 1..3 chunks (the burst component
+        # does the same on single-chunk packets): the model says ValueError, the oracle "wrong CRC-32C accepted"
+        for _ in range(150 if tier == "quick" else 1500):
+            chunks = []
+            for _ in range(r3.choice([1, 2, 2, 3])):
+                spec = gen_spec(r3)
+                if spec_in_range(spec):
+                    chunks.append(spec)
+            sp, dp, tag = gen_header(r3)
+            pkt = ref_packet(sp, dp, tag, chunks) if chunks else fix_crc(struct.pack("!HHL", sp, dp, tag) + bytes(8))
+            xf = r3.choice(CK_XFS)
+            bad = xf_apply(pkt, 8, 4, xf)
+            if bad != pkt:
+                out.append({"d": hx(bad), "xf": f"8+4:{xf}"})
         for c in out:
             c["k"] = rng.randrange(1, 13)
         return out
@@ -1198,11 +1419,24 @@ class Parse(Isolated):
         crc_good = len(data) >= 16 and struct.unpack_from("<L", data, 8)[0] == crc_ref(data[:8] + b"\0\0\0\0" + data[12:])
         if impl_out.startswith("ok ") and not crc_good:
             return "packet with wrong CRC-32C (or shorter than 16 bytes) was accepted"
+        if "expect" in case and impl_out != case["expect"]:
+            return (f"valid packet ({case.get('xf')} applied to a built packet, checksum recomputed) parses to "
+                    f"{impl_out[:160]} ≠ {case['expect'][:160]}")
         if impl_out.startswith("ok "):
             # every accepted chunk is a fixed point of serialise-then-parse
             m = _m()
             _, r = self._parse(data)
             sp, dp, tag, chunks = r
+            # the header fields and the (type, flags) of every chunk are what is on the wire (RFC 4960 §3, big-endian)
+            if (sp, dp, tag) != struct.unpack_from("!HHL", data):
+                return f"header parsed as {(sp, dp, tag)} but the wire says {struct.unpack_from('!HHL', data)}"
+            walk = ref_walk(data)
+            if walk is None:
+                return "packet with a chunk length field < 4 or beyond the end of the packet was accepted"
+            want = [(ty, fl) for ty, fl, _ in walk if ty in RFC_TYPE.values()]
+            got = [(RFC_TYPE.get(type(c).__name__, getattr(c, "type", None)), getattr(c, "flags", None)) for c in chunks]
+            if got != want:
+                return f"chunks parsed as (type, flags) {got[:6]} but the wire says {want[:6]}"
             for c in chunks:
                 s = guard(lambda: m.serialize_packet(sp, dp, tag, c), hx)
                 if not s.startswith("ok "):
@@ -1225,6 +1459,19 @@ class Parse(Isolated):
     def shrink(self, case):
         b = unhx(case["d"])
         out = []
+        if len(b) >= 16:
+            # coarse steps first (every evaluation is a forked child): the smallest packet with this header, the first
+            # chunk alone, everything but the first chunk header zeroed, header zeroed
+            out.append(fix_crc(b[:12] + chunk_bytes_raw(11, 0, b"")))
+            out.append(fix_crc(bytes(12) + chunk_bytes_raw(11, 0, b"")))
+            walk = ref_walk(b)
+            if walk and len(walk) > 1:
+                ty, fl, body = walk[0]
+                out.append(fix_crc(b[:12] + chunk_bytes_raw(ty, fl, body)))
+                ty, fl, body = walk[-1]
+                out.append(fix_crc(b[:12] + chunk_bytes_raw(ty, fl, body)))
+            out.append(fix_crc(b[:16] + bytes(len(b) - 16)))
+            out.append(fix_crc(bytes(8) + b[8:]))
         if len(b) > 16:
             out.append(fix_crc(b[:12] + b[12:][: (len(b) - 12) // 2]))
             out.append(fix_crc(b[:-4]))
@@ -1233,7 +1480,16 @@ class Parse(Isolated):
             if b[i]:
                 out.append(fix_crc(b[:i] + b"\0" + b[i + 1:]))
         out.append(fix_crc(bytes(8) + b[8:]))
-        res = [dict(case, d=hx(x)) for x in out if x != b]
+        # strictly decreasing measure (the coarse candidates are not sub-packets of `b`): no cycles
+        size = lambda x: (len(x), sum(1 for i, v in enumerate(x) if v and not 8 <= i < 12), sum(x[:8] + x[12:]))
+        out = [x for x in out if size(x) < size(b)]
+        ck = case.get("xf", "")
+        if ck.startswith("8+4:"):
+            # a transformed checksum field: keep the transformation while the packet gets smaller
+            out = [xf_apply(x, 8, 4, ck[4:]) for x in out]
+            res = [{"d": hx(x), "k": case.get("k", 1), "xf": ck} for x in out if x != b]
+        else:
+            res = [{"d": hx(x), "k": case.get("k", 1)} for x in out if x != b]
         if case.get("k", 1) > 3:
             res = [dict(case, k=1), dict(case, k=2), dict(case, k=3)] + res
         return res
@@ -1298,7 +1554,8 @@ def straddle_witness(data: bytes, p: int):
 
 class Burst(Component):
     name = "burst"
-    theorems = ["crc_burst_partial", "C08_full_false", "crc_burst_four_bytes"]
+    theorems = ["crc_burst_partial", "C08_full_false", "crc_burst_four_bytes", "checksum_field_exact",
+                "checksum_field_unique", "checksum_byte_reversed_rejected", "built_checksum_exact"]
 
     WITNESS = {"sp": 5000, "dp": 5000, "tag": 0, "chunk": {"cls": "CookieAckChunk", "flags": 0, "body": "-"}}
 
@@ -1310,11 +1567,43 @@ class Burst(Component):
             mask = straddle_witness(pkt, p)
             if mask:
                 out.append(dict(self.WITNESS, p=p, mask=mask))
+        # the checksum field of the witness packet in the other byte order, complemented, zeroed, as Adler-32 ...
+        for xf in ("byterev", "alt:crc32c:be", "complement", "zero", "ones", "halfswap", "alt:adler32:be",
+                   "alt:crc32-ieee:le", "alt:crc32c-as-received:le"):
+            out.append(dict(self.WITNESS, field=[8, 4], xf=xf))
         return out
 
     def _packet(self, case) -> bytes:
         m = _m()
         return m.serialize_packet(case["sp"], case["dp"], case["tag"], build_chunk(case["chunk"]))
+
+    def _bad(self, case, pkt=None) -> bytes:
+        """The corrupted packet: an explicit burst (p, mask) or a structured transformation `xf` of the field
+        `field` = [offset, width] of the packet as built (symbolic, so that it follows the packet through shrinking)."""
+        pkt = self._packet(case) if pkt is None else pkt
+        if "xf" in case:
+            return xf_apply(pkt, case["field"][0], case["field"][1], case["xf"])
+        return apply_burst(pkt, case["p"], case["mask"])
+
+    def burst(self, case):
+        """(p, mask) of the alteration, None if the packet is unchanged."""
+        if "xf" not in case:
+            return (case["p"], case["mask"]) if case["mask"] else None
+        pkt = self._packet(case)
+        return burst_of(pkt, self._bad(case, pkt))
+
+    def _structured(self, rng, base, pkt, full):
+        """Structured alterations of one packet: every transformation / alternative checksum in the checksum field (and
+        in its halves), every transformation of the header fields, a sample for chunk fields and for the windows that
+        overlap the checksum field."""
+        out = [dict(base, field=[8, 4], xf=x) for x in CK_XFS]
+        out += [dict(base, field=list(f), xf=x) for f in CK_SUBFIELDS for x in rng.sample(XF_NAMES, 4)]
+        if full:
+            for f in xf_fields(rng, pkt, 4):
+                xs = XF_NAMES if f[0] < 16 else rng.sample(XF_NAMES, 4)
+                out += [dict(base, field=list(f), xf=x) for x in xs]
+            out += [dict(base, field=list(f), xf=x) for f in CK_STRADDLE_WINDOWS for x in rng.sample(XF_NAMES, 6)]
+        return out
 
     def cases(self, rng, tier):
         out = []
@@ -1361,31 +1650,65 @@ class Burst(Component):
                 mk = straddle_witness(self._packet(base), p)
                 if mk:
                     out.append(dict(base, p=p, mask=mk))
+            # round 3: structured alterations (random patterns never produce "the same value in the other byte order")
+            out += self._structured(rng, base, self._packet(base), full=True)
+        # ... of the checksum field for packets of every class (a lenient check may depend on the chunk type / tag)
+        for rep in range(1 if tier == "quick" else 6):
+            for name in ALL:
+                while True:
+                    spec = gen_spec(rng, name)
+                    if spec_in_range(spec) and len(ref_chunk(spec)) <= 400:
+                        break
+                sp, dp, tag = gen_header(rng)
+                if rep % 2 == 1:
+                    tag = 0
+                base = {"sp": sp, "dp": dp, "tag": tag, "chunk": spec}
+                out += self._structured(rng, base, self._packet(base), full=(rep >= 2))
         return out
 
     def model_line(self, case):
-        return "sctpwire parse " + hx(apply_burst(self._packet(case), case["p"], case["mask"]))
+        return "sctpwire parse " + hx(self._bad(case))
 
     def impl(self, case):
         m = _m()
-        bad = apply_burst(self._packet(case), case["p"], case["mask"])
+        bad = self._bad(case)
         return guard(lambda: m.parse_packet(bad), show_parsed)
 
     def oracle(self, case, impl_out):
-        if case["mask"] == 0 or case["mask"].bit_length() > 32:
+        b = self.burst(case)
+        if b is None or b[1].bit_length() > 32:
             return None
+        p, mask = b
         if impl_out != "ValueError":
-            return (f"packet with a burst of {case['mask'].bit_length()} bits at bit {case['p']} "
-                    f"(mask {case['mask']:#x}) was not rejected: {impl_out[:80]}")
+            what = ""
+            if "xf" in case:
+                pkt = self._packet(case)
+                off, w = case["field"]
+                what = (f": bytes {off}..{off + w - 1} {hx(pkt[off:off + w])} → {hx(self._bad(case, pkt)[off:off + w])} "
+                        f"({case['xf']}{' of the checksum field' if (off, w) == (8, 4) else ''})")
+            return (f"packet with a burst of {mask.bit_length()} bits at bit {p} "
+                    f"(mask {mask:#x}){what} was not rejected: {impl_out[:80]}")
         return None
 
     def label(self, case, impl_out):
-        p, mask = case["p"], case["mask"]
+        b = self.burst(case)
+        if b is None:
+            return "unchanged:" + impl_out.split(" ")[0]
+        p, mask = b
         where = "straddle" if straddles(p, mask) else "inside" if 64 <= p < 96 else "before" if p < 64 else "after"
-        return where + ":" + impl_out.split(" ")[0]
+        kind = ""
+        if "xf" in case:
+            kind = (("ck-alt" if case["xf"].startswith("alt:") else "ck-xf") if case["field"] == [8, 4] else "xf") + ":"
+        return kind + where + ":" + impl_out.split(" ")[0]
+
+    def nontrivial(self, case, impl_out):
+        return self.burst(case) is not None
 
     def shrink(self, case):
         out = [dict(case, chunk=s) for s in shrink_spec(case["chunk"])]
+        out += [dict(case, **{k: v}) for k, v in (("tag", 0), ("sp", 0), ("dp", 0)) if case[k] != v]
+        if "xf" in case:
+            return out
         m = case["mask"]
         for j in range(m.bit_length()):
             if (m >> j) & 1 and m != (1 << j):
@@ -1892,5 +2215,9 @@ def classify_finding(finding, comp_name, case, what):
     """C08-crc-straddle: the burst alters bits inside the checksum field (64..95) AND bits outside it."""
     clf = finding.get("classifier", {})
     if clf.get("kind") == "burst-straddles-checksum" and comp_name == "burst":
-        return "mask" in case and straddles(case["p"], case["mask"])
+        try:
+            b = Burst().burst(case)
+        except Exception:
+            return False
+        return b is not None and straddles(*b)
     return False
